@@ -154,9 +154,19 @@ def run(tier, seed):
         # simplify / as_coeff_unit denote the same unit (on copies: simplify mutates, a C18 matter)
         if k in ("plain", "dimless"):
             w = Unit(u.expr, registry=u.registry)
+            hash(w)  # a unit that was already used as a dict key (hash taken) and is then simplified in place
             s = try_(lambda: w.simplify())
             if s[0] == "ok":
                 sv = s[1]
+                # same expression, same registry state => same hash, whatever was done to the object before
+                try:
+                    fresh = Unit(sv.expr, registry=u.registry)
+                    if fresh.expr == sv.expr and not (hash(sv) == hash(fresh) and sv == fresh):
+                        chk.fail(f"hash-after-simplify|{k}", "a unit hashed, then simplified, hashes differently from a unit built from the same expression",
+                                 {"python": snippet(hdr + "w = Unit(u.expr, registry=u.registry); hash(w); s = w.simplify(); f = Unit(s.expr, registry=u.registry)\n"
+                                                    "assert f.expr != s.expr or (hash(s) == hash(f) and s == f), (s, hash(s), hash(f))\n")})
+                except Exception:  # noqa: BLE001
+                    chk.count("rebuild-raised")
                 ok = sv.dimensions == u.dimensions and math.isclose(sv.base_value, u.base_value, rel_tol=1e-12)
                 try:
                     cf, cu = sv.as_coeff_unit()
